@@ -269,7 +269,8 @@ PROPS = {
         "module": "Arca.Props.C15",
         "theorems": ["Arca.Props.C15.optional_meaning", "Arca.Props.C15.absent_members_left_out", "Arca.Props.C15.oneof_meaning",
                      "Arca.Props.C15.recorded_source_was_produced", "Arca.Props.C15.wait_optional_settled_when_evaluated",
-                     "Arca.Props.C15.soft_optional_not_hard"],
+                     "Arca.Props.C15.soft_optional_not_hard", "Arca.Props.C15.absent_optional_item_left_out",
+                     "Arca.Props.C15.present_optional_item_kept", "Arca.Props.C15.list_result_null_only_from_non_optional"],
         "pins": RESOLVE_PINS + ["workflow_workflow_loopState_notifySteps", "workflow_executor_executor_prepareOptionalExprDependencies",
                                 "workflow_executor_executor_prepareOneOfExprDependencies", "workflow_executor_executor_createGroupNode",
                                 "workflow_yaml__buildOneOfExpressions", "workflow_yaml__buildResultOrDisabledExpression",
